@@ -193,8 +193,11 @@ class PythonCryptoEndpoint(CryptoEndpoint, EndpointListener):
 
         try:
             if next_relay.rendezvous_relay:
+                this_relay = self.relays.get(next_relay.circuit_id)
+                if this_relay is None:
+                    self.logger.warning("Dropping cell (other half of the rendezvous relay is gone)")
+                    return
                 self.decrypt_cell(cell, FORWARD, next_relay.hop)
-                this_relay = self.relays[next_relay.circuit_id]
                 self.encrypt_cell(cell, BACKWARD, this_relay.hop)
                 cell.relay_early = False
             else:
